@@ -32,14 +32,32 @@ _SCRATCH: str | None = None
 SERVICE_NAMES = ["web", "worker", "default", "db"]
 
 
+_SCRATCH_PID = -1
+
+
 def scratch() -> str:
-    global _SCRATCH
-    if _SCRATCH is None or not os.path.isdir(_SCRATCH):
+    """A per-process scratch directory (workers are forked: never share the parent's)."""
+    global _SCRATCH, _SCRATCH_PID
+    if _SCRATCH is None or _SCRATCH_PID != os.getpid() or not os.path.isdir(_SCRATCH):
         import atexit
 
         _SCRATCH = tempfile.mkdtemp(prefix="verif-cli-")
-        atexit.register(shutil.rmtree, _SCRATCH, True)
+        _SCRATCH_PID = os.getpid()
+        atexit.register(_cleanup, _SCRATCH, os.getpid())
     return _SCRATCH
+
+
+def cleanup() -> None:
+    """Called by the driver when a process is done with this engine."""
+    global _SCRATCH
+    if _SCRATCH is not None and _SCRATCH_PID == os.getpid():
+        shutil.rmtree(_SCRATCH, True)
+        _SCRATCH = None
+
+
+def _cleanup(path: str, pid: int) -> None:
+    if os.getpid() == pid:
+        shutil.rmtree(path, True)
 
 
 class Tagged:
